@@ -52,7 +52,11 @@ G_SCHEME = [None, "http", "HTTP", "https", "ftp", "ht tp"]
 G_USERINFO = [None, "u", "u:p", "u@v", "u:p@q:r", "%40", "\u00e9", "\\"]
 G_HOST = ["a.test", "A.Test", "a.test.", "1.2.3.4", "01.2.3.4", "1.2.3.4.5", "[::1]",
           "[::1%25eth0]", "[::1%eth0]", "[fe80::1%25]", "[v1.x]", "[::g]", "\u00e9.test",
-          "xn--9ca.test", "a b", "a\\b", "*", "-a-", "a" * 64 + ".test", ""]
+          "xn--9ca.test", "a b", "a\\b", "*", "-a-", "a" * 64 + ".test", "",
+          # zone identifiers that begin with the characters of the "%25" delimiter itself (numeric interface indexes)
+          "[fe80::1%252a]", "[fe80::1%255]", "[fe80::1%2525]", "[fe80::1%52]",
+          # code points some IDNA mappings turn into a label separator (U+3002, U+FF0E, U+FF61): one label to RFC 3986
+          "a.test\u3002b.test", "1\uff0e2\uff0e3\uff0e4", "a\uff61test"]
 G_PORT = [None, "", "0", "80", "080", "65535", "65536", "99999999999", "8a", "-1", " 80",
           "\uff18\uff10", "+80"]  # digits int() takes but the grammar does not: fullwidth "80", a signed number
 G_PATH = [None, "/", "/a/./b/../c", "/..", "/../..", "//", "/%7e%7E", "/%zz", "/\u00e9",
